@@ -299,12 +299,23 @@ def run(tier):
                 fs = MU.proj_fields(pr)
                 if fs and is_opt_local(P, key, b, l) and fs[0] < len(opt_fields):
                     optf.add(opt_fields[fs[0]])
+        # a helper closure of main that builds the default path: its calls and the option fields it reads count as well; the suffix is
+        # the constant handed to it at this use
+        for c in calls:
+            for cand in [MU.callee_names(c)[0], MU.callee_names(c)[1]]:
+                ck = next((k2 for k2 in P.body if k2.startswith(key + "::{closure") and (cand == k2 or k2.endswith("::" + cand) or cand.endswith(k2))), None)
+                if ck is None:
+                    continue
+                cn, cf = closure_facts(P, ck, opt_fields)
+                callnames |= cn
+                optf |= cf
         short = w.split("::")[-1]
         rep.ob("C18.paths|%s|explicit" % short, optname in optf and other_opt not in optf,
                "the path given with the %s option is the one passed to %s" % (optname, short) if optname in optf and other_opt not in optf else
                "%s's path depends on option field(s) %s; expected `%s` (and `source` for the default) only" % (short, sorted(optf), optname), loc=loc)
         okd = suffix in strs and (other_suffix is None or other_suffix not in strs) and "source" in optf \
-            and "std::path::Path::file_stem" in callnames and "std::path::Path::parent" in callnames and "std::path::PathBuf::push" in callnames
+            and "std::path::Path::file_stem" in callnames and "std::path::Path::parent" in callnames and \
+            ("std::path::PathBuf::push" in callnames or "std::path::Path::join" in callnames)
         if suffix == ".eep.hex":
             okd = okd and ".hex" not in strs
         rep.ob("C18.paths|%s|default" % short, okd,
@@ -334,12 +345,82 @@ def run(tier):
             rep.ob("C18.guard|%s|non-empty" % short, guard,
                    "the EEPROM file is written only for a non-empty EEPROM image" if guard else
                    "the EEPROM writer is not guarded by `!eeprom.is_empty()` of this build's result", loc=loc)
-    rep.floor("blocks in main", len(b["blocks"]), 120)
+        else:
+            # the flash file is written for every build that succeeded, an empty image included (a file with the end-of-file record):
+            # no test of the image's emptiness stands in front of the writer
+            guards = []
+            for gbb, gt, n, tg in P.call_sites(key):
+                if MU.callee_names(gt)[1] == "std::vec::Vec::<T, A>::is_empty":
+                    r2, pr2, _ = ch.root(gt["args"][0])
+                    fs = MU.proj_fields(pr2)
+                    if r2 == build_dest and fs == [0, img] and gt.get("target") is not None:
+                        sw = b["blocks"][gt["target"]]["term"]
+                        if sw["k"] == "switch" and any(G.dominates(idom, x, bb) for v, x in sw["targets"]) and not G.dominates(idom, bb, gbb):
+                            guards.append(gbb)
+            rep.ob("C18.guard|%s|always" % short, not guards,
+                   "the flash file is written for every successful build, whatever the size of the image" if not guards else
+                   "the flash writer runs only when the code image is not empty: a program without code writes no flash file at all, not even to the -o path", loc=loc)
+        # nothing lossy on the way from the source name to the default path (a name that is not UTF-8 keeps its stem)
+        lossy = sorted(c.split("::")[-1] for c in callnames if re.search(r"::(to_str|to_string_lossy|into_string|to_string)$", c))
+        rep.ob("C18.paths|%s|lossless" % short, not lossy,
+               "the default path of %s is built from the source name without a text conversion" % short if not lossy else
+               "the default path of %s goes through %s: a source name that is not valid UTF-8 loses its stem (the image goes to `%s`)" % (short, lossy, suffix), loc=loc)
+    # the two files are two files: the paths are compared before anything is written
+    if len(fallible.get("writer::write_code_hex", [])) == 1 and len(fallible.get("writer::write_eeprom_hex", [])) == 1:
+        (cbb, ct), (ebb, et) = fallible["writer::write_code_hex"][0], fallible["writer::write_eeprom_hex"][0]
+        cp_, ep_ = ch.root(ct["args"][0], through_calls=False)[0], ch.root(et["args"][0], through_calls=False)[0]
+        compared = False
+        for gbb, gt, n, tg in P.call_sites(key):
+            full, rp = MU.callee_names(gt)
+            if re.search(r"PartialEq(<.*>)?>?::(eq|ne)$", rp) or re.search(r"PartialEq(<.*>)?>::(eq|ne)$", full):
+                roots = {ch.root(a, through_calls=False)[0] for a in gt["args"][:2]}
+                # the comparison stands in front of both writers (it may itself be skipped when there is no EEPROM image to write)
+                after = G.reach_blocks(b, gbb)
+                if roots == {cp_, ep_} and cbb in after and ebb in after and gbb not in G.reach_blocks(b, cbb) and gbb not in G.reach_blocks(b, ebb):
+                    compared = True
+        rep.ob("C18.paths|distinct", compared,
+               "the flash and the EEPROM path are compared before either file is written" if compared else
+               "nothing compares the two output paths: `-o f -e f` writes the flash image to f and then replaces it by the EEPROM image, with exit status 0")
+    rep.floor("blocks in main", len(b["blocks"]), 100)
     return rep
 
 
 def cr_is_generate_result(P, key, body, local):
     return P.tys(key, body["locals"][local]["ty"]).endswith("writer::GenerateResult")
+
+
+def closure_facts(P, ck, opt_fields):
+    """-> (resolved callee names in the closure body, option fields it reads through its captures)"""
+    b = P.body[ck]
+    names = {MU.callee_names(t)[1] for _, t, _, _ in P.call_sites(ck)}
+    cr = P.crate_of[ck]
+    fields = set()
+
+    def walk_place(pl):
+        cur = cr.types[b["locals"][pl["local"]]["ty"]]
+        for e in pl["proj"]:
+            while cur["k"] in ("ref", "ptr"):
+                cur = cr.types[cur["to"]]
+            if e["k"] == "field":
+                if cur["k"] == "adt" and cur["path"].endswith("opt::Opt") and e["i"] < len(opt_fields):
+                    fields.add(opt_fields[e["i"]])
+                cur = cr.types[e["ty"]]
+            elif e["k"] == "deref":
+                continue
+            else:
+                break
+
+    def walk(o):
+        if isinstance(o, dict):
+            if "local" in o and "proj" in o:
+                walk_place(o)
+            for v in o.values():
+                walk(v)
+        elif isinstance(o, list):
+            for v in o:
+                walk(v)
+    walk(b["blocks"])
+    return names, fields
 
 
 def is_opt_local(P, key, body, local):
